@@ -220,6 +220,12 @@ pub const ALPHABETS: &[(&str, &[&str])] = &[
         ],
     ),
     (
+        "A6-comments",
+        &[
+            "#", "!", "/", "*", "-", " ", "\n", "\r", "a", "1", "\"", "@", "\\", "|", "?", "\t",
+        ],
+    ),
+    (
         "A5-keywords",
         &[
             "l", "e", "t", "r", "u", "n", "#", ",", ".", " ", "\n", "(", ")", "'", "`", "=", "1", "|",
